@@ -61,6 +61,7 @@ type Exec struct {
 	stack []*ssa.Function
 	recDepth int
 	prune    bool
+	logicals map[string]bool
 	caseName string // foreach: the type bound to $K in this run
 	feasCalls int
 }
@@ -137,6 +138,7 @@ func (fr *frame) clone() *frame {
 	for k, v := range fr.loopEntry {
 		n.loopEntry[k] = v
 	}
+	n.idxNext = fr.idxNext
 	n.unrolled = make(map[*ssa.BasicBlock]int, len(fr.unrolled))
 	for k, v := range fr.unrolled {
 		n.unrolled[k] = v
@@ -211,9 +213,18 @@ func (x *Exec) addrOf(st *State, fr *frame, p Val, pos token.Pos, what string) *
 		if isObj, isElem := x.refuteEither(st, "(iselem "+p.T+")"); isElem {
 			st.assumePC("(iselem " + p.T + ")")
 			// name the element: p = eptr(b, i) for fresh constants (they exist: every element pointer is an eptr term)
+			if bi, ok := st.elemNames[p.T]; ok {
+				return &Addr{Kind: AElem, Base: bi[0], Idx: bi[1], RootTy: pt.Elem()}
+			}
 			b, i := st.freshSort("eb", "Int"), st.freshSort("ei", "Int")
 			st.assume("(= " + p.T + " (eptr " + b + " " + i + "))")
 			st.assume("(and (= " + b + " (ebase " + p.T + ")) (= " + i + " (eidx " + p.T + ")))")
+			n := make(map[string][2]string, len(st.elemNames)+1)
+			for k, v := range st.elemNames {
+				n[k] = v
+			}
+			n[p.T] = [2]string{b, i}
+			st.elemNames = n
 			return &Addr{Kind: AElem, Base: b, Idx: i, RootTy: pt.Elem()}
 		} else {
 			_ = isObj // undetermined: as everywhere else, a pointer of unknown provenance is taken to refer to an object
@@ -355,9 +366,14 @@ func (x *Exec) verify() {
 		v := st.fresh("lv_"+lv[0], t)
 		st.assumeAllocated(t, v.T)
 		ctx.vars[lv[0]] = v
+		if x.logicals == nil {
+			x.logicals = map[string]bool{}
+		}
+		x.logicals[lv[0]] = true
 	}
 	x.prune = c.Prune
 	e.curElemPtrs = c.ElemPtrs
+	e.curCase = x.caseName
 	if c.ElemPtrs {
 		e.needEptr()
 	}
@@ -387,6 +403,10 @@ func (x *Exec) verify() {
 		}
 	}
 	x.entryVars = ctx.vars
+	for k := range x.logicals {
+		// dyn bindings may have refined the logical variable's value (pinned dynamic types)
+		_ = k
+	}
 	outs := x.runBlock(st, fr, fn.Blocks[0], 0)
 	for _, o := range outs {
 		x.checkPost(o.st, fn, c, ctx.vars, o.res)
@@ -497,6 +517,10 @@ func blockPos(b *ssa.BasicBlock) token.Pos {
 // localCtx builds a spec context in which source-level locals of fr are visible.
 func (x *Exec) localCtx(st *State, fr *frame, li *loopInfo) *SpecCtx {
 	ctx := &SpecCtx{s: st, vars: map[string]Val{}, pkg: fr.fn.Pkg.Pkg, old: st.heap0}
+	for k := range x.logicals {
+		// logical variables of the root contract are visible in every frame (invariants of inlined functions)
+		ctx.vars[k] = x.entryVars[k]
+	}
 	if fr.fn == x.root {
 		for k, v := range x.entryVars {
 			ctx.vars["old_"+k] = v
@@ -521,7 +545,7 @@ func (x *Exec) localCtx(st *State, fr *frame, li *loopInfo) *SpecCtx {
 					if al.Comment == "rangeindex" && li.blocks[x.storeBlockOf(al, li)] {
 						v := st.load(fr.regs[al].Addr)
 						if want == "$done" {
-							return ival("(+ " + v.T + " 1)"), true
+							return ival(fr.nextIndex(st, v.T)), true
 						}
 						return v, true
 					}
@@ -1190,6 +1214,11 @@ func (x *Exec) binop(st *State, fr *frame, in *ssa.BinOp) Val {
 	case token.GEQ:
 		return Val{T: "(>= " + a.T + " " + b.T + ")", Ty: rt}
 	case token.ADD:
+		if isRangeIndexLoad(in.X) && b.T == "1" {
+			// the increment of a range loop's hidden index cannot overflow (index < length <= maxint): no wrap term, and
+			// the successor of an index value has one name per path, shared with $done in the loop's invariants
+			return Val{T: fr.nextIndex(st, a.T), Ty: rt}
+		}
 		sum := st.name("sum", "Int", "(+ "+a.T+" "+b.T+")")
 		return Val{T: st.name("add", "Int", e.wrapAddSub(rt, sum)), Ty: rt}
 	case token.SUB:
@@ -1799,4 +1828,33 @@ func (x *Exec) bindDyn(st *State, fr *frame, ctx *SpecCtx, path, tname string) e
 		}
 	}
 	return fmt.Errorf("no field %s", parts[1])
+}
+
+func isRangeIndexLoad(v ssa.Value) bool {
+	u, ok := v.(*ssa.UnOp)
+	if !ok || u.Op != token.MUL {
+		return false
+	}
+	al, ok := u.X.(*ssa.Alloc)
+	return ok && al.Comment == "rangeindex"
+}
+
+// nextIndex names v+1 for an index value v of a range loop (a constant, so that index arithmetic in quantifier
+// patterns keeps matching, and the same constant wherever the successor of v is meant on this path).
+func (fr *frame) nextIndex(st *State, v string) string {
+	if c, ok := constOf(v); ok && v != "" {
+		return bigTerm(new(big.Int).Add(c, big.NewInt(1)))
+	}
+	if n, ok := fr.idxNext[v]; ok {
+		return n
+	}
+	n := st.freshSort("nx", "Int")
+	st.assume("(= " + n + " (+ " + v + " 1))")
+	m := make(map[string]string, len(fr.idxNext)+1)
+	for k, x := range fr.idxNext {
+		m[k] = x
+	}
+	m[v] = n
+	fr.idxNext = m
+	return n
 }
